@@ -31,6 +31,12 @@ def gen_dir(rng, irregular=False):
             m = re.match(r"([-ox~<>] (?:P\d )?)(plain|foo|Baz_1|x1) ", l)
             if m and rng.random() < 0.3:
                 lines[i] = m.group(1) + rng.choice(["3d", "10m", "-2d", "1y", "7D", "o1", "x2", "20240301", "2024-W08", "2024-W09-5", "2024W081", "2024-3-1", "24-03-01"]) + " " + l[m.end():]
+        # runs of two spaces INSIDE the first line of an item (not after its prefix): legal, kept verbatim everywhere
+        for i, l in enumerate(lines):
+            m = re.match(r"([-ox~<>] (?:P\d )?\S+ )(\S+ .*)", l)
+            if m and rng.random() < 0.15:
+                head, tail = m.group(1), m.group(2)
+                lines[i] = head + tail.replace(" ", "  ", 1)
         text = "\n".join(lines)
         if irregular:
             # irregular spacing after the prefix on some ZID-less items (known finding)
@@ -91,6 +97,9 @@ def check_dir(eng, rng, files, oc, irregular):
             ok = False
         # ---- spec on the implementation
         probs = []
+        irr = lambda l: bool(re.match(r" *[-ox~<>](  | P\d  )", l))            # the known class: irregular spacing after the prefix
+        orig_line = lambda page, line: (files.get(page, "").split("\n") + [""] * (line + 1))[line - 1]
+        known_lines = set()        # problems explained by the known finding (by page and line)
         recompiled = W.compile_dir(d, TODAY)
         indexed = W.dump_index(d)
         if any(n["zid"] is None for n in recompiled):
@@ -98,11 +107,19 @@ def check_dir(eng, rng, files, oc, irregular):
         a, b = W.key_notes(recompiled), W.key_notes(indexed)
         if a != b:
             diff = None
+            explained = len(a) == len(b)
             for x, y in zip(a, b):
                 if x != y:
-                    diff = {k: [x[k], y[k]] for k in x if x[k] != y[k]}
-                    break
-            probs.append("recompiled files differ from the indexed notes: %s (counts %d/%d)" % (diff, len(a), len(b)))
+                    if diff is None:
+                        diff = {k: [x[k], y[k]] for k in x if x[k] != y[k]}
+                    if not irr(orig_line(x["page"], x["line"])):
+                        diff = {k: [x[k], y[k]] for k in x if x[k] != y[k]}
+                        explained = False
+                        break
+            msg = "recompiled files differ from the indexed notes: %s (counts %d/%d)" % (diff, len(a), len(b))
+            probs.append(msg)
+            if explained:
+                known_lines.add(msg)
         # files differ only in first lines of notes that lacked a ZID
         for p, old in files.items():
             ol, nl = old.split("\n"), after[p].split("\n")
@@ -119,7 +136,11 @@ def check_dir(eng, rng, files, oc, irregular):
                     rest = m.group(2)
                     rest2 = re.sub(r"^\d{4}-\d\d-\d\d ", "", rest)
                     if not re.fullmatch(re.escape(m.group(1)) + r"\d{6}#\w{2,3} " + re.escape(rest2), y, re.S):
-                        probs.append("%s line %d: %r -> %r is not 'prefix + ZID + rest'" % (p, i + 1, x, y))
+                        msg = "%s line %d: %r -> %r is not 'prefix + ZID + rest'" % (p, i + 1, x, y)
+                        probs.append(msg)
+                        if irr(x):
+                            known_lines.add(msg)
+                            continue
                         break
         # running create / reindex again changes nothing
         with freeze_time(dt.datetime(2024, 6, 1, 12)):
@@ -133,9 +154,13 @@ def check_dir(eng, rng, files, oc, irregular):
             probs.append("a second db create / db reindex changed an indexed note")
         if probs:
             trig = None
-            if any(re.search(r"^ *[-ox~<>] (?:P\d)? ", l + " ", re.M) and re.match(r" *[-ox~<>](  | P\d  )", l)
-                   for t in files.values() for l in t.split("\n")):
+            any_irr = any(irr(l) for t in files.values() for l in t.split("\n"))
+            # the "second run changes something" problems are consequences; every other problem must be explained by a
+            # line with irregular spacing after its prefix
+            direct = [m for m in probs if not m.startswith("a second db create")]
+            if any_irr and all(m in known_lines for m in direct):
                 trig = "irregular_spacing"
+            probs.sort(key=lambda m: (m in known_lines, m.startswith("a second db create")))
             oc.spec_fail.append((case, probs[:3], "C05", trig))
             if trig:
                 oc.known_hit[trig] = probs[0][:200]
@@ -168,7 +193,10 @@ def run(oc, tier, seed):
                "(allocation order + line rewriting), and on the implementation alone: every note has a ZID, recompiled notes "
                "= indexed notes on all fields incl. section path and block, files differ only by 'prefix + ZID + rest' on "
                "first lines of ZID-less notes, repeated runs change nothing; non-trivial = directory with >= 3 new notes")
-    for i in range(n):
+    search = 10
+    for i in range(n + 10):
+        if i >= n and not oc.corr_mismatch:
+            break
         irregular = i % 6 == 5
         files = gen_dir(rng, irregular)
         ok = check_dir(eng, rng, files, oc, irregular)
@@ -177,7 +205,13 @@ def run(oc, tier, seed):
         if len(oc.samples) < 2:
             oc.samples.append({k: v[:300] for k, v in files.items()})
         if not ok:
-            break
+            # a spec failure is the replay; after a mere model/implementation difference keep looking (bounded)
+            # for a directory on which the property itself fails
+            if any(f[3] is None for f in oc.spec_fail):
+                break
+            search -= 1
+            if search <= 0:
+                break
     eng.close()
 
 
